@@ -639,16 +639,13 @@ func run(c *kernel.Ctx) {
 	n := cfg.Range(3, maxN)
 	seq := genSeq(work, n)
 
-	scratch := os.Getenv("VERIF_SCRATCH")
-	if scratch == "" {
-		scratch = os.TempDir()
-	}
-	s.root = filepath.Join(scratch, fmt.Sprintf("c04-%d", c.Tape.Seed()))
-	if err := os.MkdirAll(s.root, 0700); err != nil {
+	root, err := runDir("c04", c.Tape.Seed())
+	if err != nil {
 		c.HarnessTrouble("scratch: %v", err)
 		return
 	}
-	defer os.RemoveAll(s.root)
+	s.root = root
+	defer dropRunDir(root)
 
 	for _, r := range seq {
 		c.Finger(r.Kind, r.H, r.R, r.Block, r.POL, r.TS, r.PType)
